@@ -55,6 +55,8 @@ type Prog struct {
 	StdCallees map[string][]*callSite
 
 	Files []string // non-test .go files analysed (relative to repo)
+
+	Renames []string // renamed anchors analysed under their reference names (anchors.go)
 }
 
 type callSite struct {
@@ -105,9 +107,33 @@ func Load(repoDir string, cfg Config, cgKind string) (*Prog, error) {
 		Env:   goEnv(cfg),
 		Tests: cfg.Tests,
 	}
+	// unexported anchors that were renamed consistently are analysed under their reference names (anchors.go)
+	overlay, renames, _ := anchorOverlay(abs, cfg)
+	if overlay != nil {
+		pc.Overlay = overlay
+	}
 	initial, err := packages.Load(pc, "./...")
 	if err != nil {
 		return nil, fmt.Errorf("go/packages: %v", err)
+	}
+	if overlay != nil {
+		// the overlay must type-check; if it does not, analyse the tree as it is
+		bad := false
+		packages.Visit(initial, nil, func(p *packages.Package) {
+			if len(p.Errors) > 0 {
+				bad = true
+			}
+		})
+		if bad {
+			overlay, renames = nil, nil
+			pc.Overlay = nil
+			pc.Fset = token.NewFileSet()
+			fset = pc.Fset
+			initial, err = packages.Load(pc, "./...")
+			if err != nil {
+				return nil, fmt.Errorf("go/packages: %v", err)
+			}
+		}
 	}
 	if len(initial) == 0 {
 		return nil, fmt.Errorf("go/packages: no packages loaded from %s", abs)
@@ -127,6 +153,9 @@ func Load(repoDir string, cfg Config, cgKind string) (*Prog, error) {
 	}
 
 	p := &Prog{RepoDir: abs, Cfg: cfg, Fset: fset, SSAPkg: map[string]*ssa.Package{}, CGKind: cgKind}
+	for _, r := range renames {
+		p.Renames = append(p.Renames, r.String())
+	}
 	seen := map[string]bool{}
 	for _, pk := range initial {
 		if pk.Module == nil || !pk.Module.Main {
